@@ -13,7 +13,17 @@
 (*            S       disjoint set array (Dset.tla), initial capacity CAP  *)
 (*            pos     next pixel (row-major index) ; pc ; T ; np           *)
 (*            oob     set when a statement would index outside labels      *)
+(*            todo    rows the relabel pass has not rewritten yet (ROWPAR)  *)
 (* actions    FirstPixel FirstRow RowStart Mid RowEnd Compress Relabel     *)
+(*            RelabelRow(r): with ROWPAR = TRUE the relabel pass - the     *)
+(*            `#pragma omp parallel for` over rows, connectedpixels.c:173  *)
+(*            - is taken one row at a time in ANY order (every schedule of *)
+(*            any number of threads is an interleaving of row steps: a     *)
+(*            step reads T and its own row only and writes its own row);   *)
+(*            with ROWPAR = FALSE it is one step (the result is the same   *)
+(*            pointwise map, so the cases are emitted from that setting).  *)
+(*            The harness binds this by sweeping the real thread count     *)
+(*            (1, 2, 3, 7, 16, 61; more threads than rows included).       *)
 (* checked    InBounds, DsInv in every state (C20); at pc = "done":        *)
 (*            Defined (no poison left), Background, Partition = the        *)
 (*            connected components under the independent definition        *)
@@ -23,21 +33,21 @@
 (***************************************************************************)
 EXTENDS Dset, Json
 
-CONSTANTS NS, NF, CAP, CONS, EmitOn
+CONSTANTS NS, NF, CAP, CONS, EmitOn, ROWPAR
 POISON == -7
 N == NS * NF
 Px == 0..(N - 1)
 Row(p) == p \div NF
 ColOf(p) == p % NF
 
-VARIABLES img, con8, labels, S, pos, pc, T, np, oob
-vars == <<img, con8, labels, S, pos, pc, T, np, oob>>
+VARIABLES img, con8, labels, S, pos, pc, T, np, oob, todo
+vars == <<img, con8, labels, S, pos, pc, T, np, oob, todo>>
 
 Init == /\ img \in [Px -> {0, 1}]
         /\ con8 \in CONS
         /\ labels = [p \in Px |-> POISON]
         /\ S = DsInit(CAP)
-        /\ pos = 0 /\ pc = "scan" /\ T = <<>> /\ np = -1 /\ oob = FALSE
+        /\ pos = 0 /\ pc = "scan" /\ T = <<>> /\ np = -1 /\ oob = FALSE /\ todo = {}
 
 \* one pixel: labels[ipx] = 0 ; if above threshold: match against nbrs (in order), else new label
 FoldMatch(lab, st0, nbrs) ==
@@ -59,7 +69,7 @@ Pixel(ipx, nbrs) ==
                           IN labels' = [lab0 EXCEPT ![ipx] = nw[2]] /\ S' = nw[1]
                      ELSE labels' = [lab0 EXCEPT ![ipx] = st.x] /\ S' = st.S
 
-Advance == /\ pos' = pos + 1 /\ UNCHANGED <<img, con8, pc, T, np>>
+Advance == /\ pos' = pos + 1 /\ UNCHANGED <<img, con8, pc, T, np, todo>>
 Scanning == pc = "scan" /\ pos < N /\ ~oob
 
 \* if (data[0] > threshold) dset_new else labels[0] = 0
@@ -86,13 +96,21 @@ RowEnd == /\ Scanning /\ pos >= NF /\ ColOf(pos) = NF - 1 /\ NF > 1
 
 Compress == /\ pc = "scan" /\ pos = N /\ ~oob
             /\ LET c == DsCompress(S) IN T' = c[1] /\ np' = c[2] /\ S' = c[3]
-            /\ pc' = "relabel" /\ UNCHANGED <<img, con8, labels, pos, oob>>
+            /\ pc' = "relabel" /\ todo' = (IF ROWPAR THEN 0..(NS - 1) ELSE {})
+            /\ UNCHANGED <<img, con8, labels, pos, oob>>
 
-Relabel == /\ pc = "relabel"
+Relabel == /\ pc = "relabel" /\ ~ROWPAR
            /\ labels' = [p \in Px |-> IF labels[p] > 0 THEN T[labels[p]] ELSE labels[p]]
-           /\ pc' = "done" /\ UNCHANGED <<img, con8, S, pos, T, np, oob>>
+           /\ pc' = "done" /\ UNCHANGED <<img, con8, S, pos, T, np, oob, todo>>
+\* one row of the parallel relabel loop (any row still to do)
+RelabelRow(r) == /\ pc = "relabel" /\ ROWPAR /\ r \in todo
+                 /\ labels' = [p \in Px |-> IF Row(p) = r /\ labels[p] > 0 THEN T[labels[p]] ELSE labels[p]]
+                 /\ todo' = todo \ {r}
+                 /\ pc' = (IF todo \ {r} = {} THEN "done" ELSE "relabel")
+                 /\ UNCHANGED <<img, con8, S, pos, T, np, oob>>
 
 Next == FirstPixel \/ FirstRow \/ RowStart \/ Mid \/ RowEnd \/ Compress \/ Relabel
+        \/ \E r \in 0..(NS - 1) : RelabelRow(r)
 Spec == Init /\ [][Next]_vars
 
 \* ---- the property, stated independently of the algorithm ----------------------------------
